@@ -2,6 +2,7 @@ import RxVerif.Spec.Single
 import RxVerif.Machine.Case
 import RxVerif.Kernel.Retry
 import RxVerif.Spec.Retry
+import RxVerif.Spec.Nested
 /-
 Evaluating the ReactiveX specification (and, independently, the chain of kernel runs) on a case of the
 fragment "one subscriber, a chain of single-source operators over one cold well-formed source".
@@ -94,6 +95,21 @@ def evStr (l : List Ev) : String := " ".intercalate (l.map fun e => "s0:" ++ e.t
 /-- `ID | <spec events> | <kernel-chain events>` or `ID -` when the case is outside the fragment -/
 def specLine (line : String) : String :=
   match Sexp.parse line with
+  | some (.list [.atom "case", .atom id, .list [.atom "sub", .list [.atom "window_with_count", n, inner], .list [.atom "react"]]]) =>
+    -- items are observables: the global (subscriber, event) trace.  Spec side: the chunk-by-chunk trace of
+    -- Spec/Nested.lean over the list spec of the inner pipeline; kernel side: the pure machine of the operator's
+    -- closures (Kernel/Nested.lean) over the kernel chain of the inner pipeline (C02d: window_trace / _root / _inner)
+    match n.asNat, evalPipe inner with
+    | some n, some (s, t) =>
+      if n == 0 then id ++ " -" else
+      id ++ " | " ++ (windowTrace n 0 (windowChunks n s) s.2).toStr ++ " | " ++ (Rx.Nested.winRun n t).toStr
+    | _, _ => id ++ " -"
+  | some (.list [.atom "case", .atom id, .list [.atom "sub", .list [.atom "group_by", f, inner], .list [.atom "react"]]]) =>
+    -- group_by: the pure machine on both streams; its per-subscriber projections are the ReactiveX characterisation
+    -- (C02d: group_root / group_inner); the order of the groups' terminals is the map's insertion order
+    match parseFn f, evalPipe inner with
+    | some f, some (s, t) => id ++ " | " ++ (Rx.Nested.grpRun f s).toStr ++ " | " ++ (Rx.Nested.grpRun f t).toStr
+    | _, _ => id ++ " -"
   | some (.list [.atom "case", .atom id, .list [.atom "sub", p, .list [.atom "react"]]]) =>
     match evalPipe p with
     | some (s, t) => id ++ " | " ++ evStr s.toEvs ++ " | " ++ evStr t.toEvs
